@@ -3,7 +3,8 @@
   of Lang.lean.  Only definitions and bookkeeping lemmas here; that these functions ARE the model
   (Model.lean) is proved in Props.lean, term by term.
 
-  save / load are not translated: `greload` is the model's save + load-into-fresh on the same slots.
+  `greload` is the model's save + load-into-fresh on the same slots; `gsave` / `gload` are the translated
+  bodies of cache::save / cache::load (`gen_reload_is_model`: they compute `greload`).
 -/
 import Vita.C04.Gen
 import Vita.C04.Lemmas
